@@ -190,6 +190,14 @@ _COV_SUB_RE = re.compile(
     r"\((\d+) (\d+) (\d+) (\d+)\)>: (\d+):(\d+)", re.M)
 
 
+# Specifications whose work is done by one action over an enumerated set or a
+# line counter (operator lemmas, function traces): per-action counts say
+# nothing there, and TLC's cost accounting of the huge Init sets is very slow.
+_NO_COV = {"MC_Noise", "Trace_Noise", "MC_Codec", "Trace_Codec", "MC_Pairing",
+           "Trace_Pairing", "MC_Window", "Trace_Window", "Trace_Stages",
+           "Trace_SynSweep", "Trace_Edit"}
+
+
 def _want_cov(ctx, module, cov):
     """Per-action coverage (-coverage 1) is collected for every trace
     validation (cheap: the search is linear) and for the model-checking
@@ -197,6 +205,8 @@ def _want_cov(ctx, module, cov):
     for the large thorough configurations too."""
     if cov is not None:
         return cov
+    if module in _NO_COV:
+        return False
     if "Trace" in module:
         return True
     return ctx.tier == "quick" or os.environ.get("VERIF_MC_COVERAGE") == "1"
@@ -285,6 +295,45 @@ def tlc(ctx, module, cfg_text, name, workers=None, timeout=900, extra=None,
         else:
             raise Infra("TLC failed on %s (%s):\n%s" % (module, name, out[-3000:]))
     shutil.rmtree(meta, ignore_errors=True)
+    return res
+
+
+def tlc_simulate(ctx, module, cfg_text, name, num, depth=150, workers=None,
+                 timeout=1800):
+    """Random exploration (tlc -simulate) of a configuration too large for
+    exhaustive search: num behaviours per worker.  Invariants (and action properties)
+    are evaluated along every generated behaviour.  Returns dict: ok, traces,
+    states, violated, out."""
+    d = _spec_copy(ctx)
+    cfg = os.path.join(d, name + ".cfg")
+    with open(cfg, "w") as fh:
+        fh.write(cfg_text)
+    meta = os.path.join(ctx.tmp, "meta-" + name)
+    cmd = ["timeout", str(timeout), "tlc", "-workers",
+           str(workers or NCPU), "-simulate", "num=%d" % num, "-depth",
+           str(depth), "-seed", str(ctx.seed), "-metadir", meta, "-config",
+           cfg, module + ".tla"]
+    t = time.time()
+    p = subprocess.run(cmd, cwd=d, capture_output=True, text=True)
+    out = p.stdout + p.stderr
+    shutil.rmtree(meta, ignore_errors=True)
+    if p.returncode == 124:
+        raise Infra("TLC simulation timed out (%s)" % name)
+    res = {"out": out, "wall": time.time() - t, "ok": False, "violated": None,
+           "traces": 0, "states": 0}
+    m = re.findall(r"Progress: (\d+) states checked, (\d+) traces generated", out)
+    if m:
+        res["states"], res["traces"] = int(m[-1][0]), int(m[-1][1])
+    m = re.search(r"Invariant (\S+) is violated|Action property (\S+) is violated"
+                  r"|Temporal properties were violated", out)
+    if m:
+        res["violated"] = m.group(1) or m.group(2) or "temporal"
+        return res
+    if re.search(r"Error:|Exception", out) and "is violated" not in out:
+        raise Infra("TLC simulation failed on %s (%s):\n%s" % (module, name, out[-2500:]))
+    if res["traces"] == 0:
+        raise Infra("TLC simulation produced no behaviours (%s):\n%s" % (name, out[-1500:]))
+    res["ok"] = True
     return res
 
 
